@@ -154,6 +154,17 @@ Definition cache_hit (c : cfg) (a : ana) (s : fs) : bool :=
   | _ => false
   end.
 
+(* GenerationCache::outputs_present: every file this run would write is a regular file *)
+Definition expected_outputs (c : cfg) (a : ana) : list str :=
+  [n_types; n_commands; n_index]
+  ++ match k_events a with Some _ => [n_events] | None => [] end
+  ++ (if c_viz c then [n_txt; n_dot] else []).
+Definition outputs_present (c : cfg) (a : ana) (s : fs) : bool :=
+  forallb (fun n => is_file s (c_out c ++ [n])) (expected_outputs c a).
+
+(* both callers answer up to date only when the record matches and the outputs are there *)
+Definition up_to_date (c : cfg) (a : ana) (s : fs) : bool := cache_hit c a s && outputs_present c a s.
+
 (* ---- CLI: generate. The effective configuration c is the file's settings (taken
    unvalidated from tauri.conf.json) with the flags applied on top; it is validated
    here, as a whole, before anything else happens: an invalid library or a missing
@@ -163,7 +174,7 @@ Definition run_generate (c : cfg) (a : ana) (s : fs) : fs * outcome :=
   else if negb (exists_b s (c_proj c)) then (s, Failed)
   else if negb (a_ok a) then (s, Failed)
   else if negb (a_cmds a) then (s, NoCommands)
-  else if negb (c_force c) && cache_hit c a s then (s, UpToDate)
+  else if negb (c_force c) && up_to_date c a s then (s, UpToDate)
   else let '(s', ok) := generate_core c a s in (s', if ok then Regenerated else Failed).
 
 (* ---- CLI: init *)
@@ -254,7 +265,7 @@ Definition run_build (detected : bool) (c : cfg) (a : ana) (s : fs) : fs * outco
   else
     let '(s1, files, ok) :=
       if negb (a_cmds a) then (s, [], true)
-      else if negb (c_force c) && cache_hit c a s then (s, child_files s (c_out c), true)
+      else if negb (c_force c) && up_to_date c a s then (s, child_files s (c_out c), true)
       else if negb (c_lib_ok c) then (s, [], false)
       else let '(s1, ok) := generate_core c a s in (s1, written_names a, ok) in
     if negb ok then (s1, Failed)
